@@ -11,7 +11,13 @@ and 0..4*bs+8 through Packetizer._build_packet (bs = max(8, cipher block)): padd
 (length mod bs) only, so every residue of the formula is enumerated for every framing mode;
 the unencrypted initial state; plus hypothesis-generated lengths up to 70 000.
 
-Oracle on the raw bytes handed to the socket (one chunk per packet), decoded with the
+Socket behaviour / history: the generated part gives the sender's socket a generated send script
+(partial sends of generated sizes, socket.timeout / EAGAIN between the pieces: what reaches the
+wire is what the socket ACCEPTED during one send_message call), and a long-lived part drives ONE
+keyed Packetizer per cipher x MAC style for 2500 (thorough 20000) packets of generated small
+lengths, every packet checked (state carried across send_message calls).
+
+Oracle on the raw bytes the socket accepted (one chunk per packet), decoded with the
 independent vlib.refssh receiver keyed from the RFC 4253 7.2 letters:
   total = 4 + packet_length + mac_len(table of the negotiated MAC, 16 for GCM);
   packet_length = 1 + len(payload as sent / compressed) + padding; 4 <= padding <= 255;
@@ -23,6 +29,7 @@ import hashlib
 from hypothesis import strategies as st
 
 from vlib import pkt
+from vlib import pktx
 from vlib import refssh as R
 
 PROPERTY = "C03"
@@ -36,9 +43,15 @@ RULE = (
     "derived from the run seed in the enumeration / drawn independently in the generated part: classes "
     "asymmetric-suites, asymmetric-style:<c2s>/<s2c>, asymmetric-mac-size, asymmetric-block-size); the generated part "
     "also runs 0-2 earlier key exchanges with their own per-direction suites and messages before the measured one "
-    "(class after-rekey:N). One case = one (keys, earlier exchanges, role, api, length list). non-trivial = encrypted "
+    "(class after-rekey:N) and gives the sender's socket a generated send script (accepts 1..N of the offered bytes, "
+    "socket.timeout / EAGAIN between the pieces; classes send-partial, send-notready-after-partial, "
+    "send-eagain-after-partial): the bytes the socket accepted during one send_message are the packet. Long-lived "
+    "senders (class long-lived-sender): for every cipher x MAC style {plain, -96, etm} (quick: 23 suites, MAC of the "
+    "style picked by the run seed; thorough: all 72 pairs) ONE keyed Packetizer sends 2500 (thorough 20000) packets of "
+    "generated lengths 1..max (max generated 8..64) through send_message, optional zlib, optional send script, every "
+    "packet checked. One case = one (keys, earlier exchanges, role, api, length list). non-trivial = encrypted "
     "suite whose uncompressed payload lengths cover all residues 0..bs-1 (enumeration) or contain a length > 4*bs+8 "
-    "(random part); distinct by SHA-1 of the case"
+    "(random part) or >= 1000 packets on one sender (long-lived part); distinct by SHA-1 of the case"
 )
 
 
@@ -59,6 +72,15 @@ def _payload(L, seed):
     return b"\x5e" + hashlib.shake_256(b"c03-%d" % seed).digest(L - 1)
 
 
+def _lengths(spec):
+    """Explicit list, or {"n", "max", "seed"}: n generated lengths in 1..max (SHAKE stream)."""
+    if isinstance(spec, dict):
+        n, mx = int(spec["n"]), int(spec["max"])
+        raw = hashlib.shake_256(b"c03-len-%d" % int(spec["seed"])).digest(n)
+        return [1 + raw[i] % mx for i in range(n)]
+    return list(spec)
+
+
 def _mac_len(cipher, mac):
     return 16 if R.CIPHERS[cipher][0] == "gcm" else R.MACS[mac][2]
 
@@ -70,7 +92,10 @@ def _key_exchange(ctx, sender, ref, keys):
     Transport._parse_newkeys) - the order a real transport uses.  Returns None or a text."""
     sender.install(keys)
     ref.install(keys)
-    sender.send_newkeys()
+    try:
+        sender.send_newkeys()
+    except Exception as e:
+        return "sending NEWKEYS raises %r [%s]" % (e, pkt.exc_bucket(e))
     ref.feed(b"".join(sender.drain()))
     try:
         got = ref.recv_newkeys()
@@ -100,10 +125,11 @@ def execute(ctx, case):
     role, api, seed = case["role"], case["api"], case["seed"]
     dname = "c2s" if role == "client" else "s2c"
     other = "server" if role == "client" else "client"
-    sender = pkt.PPeer(role)
+    sender = pkt.PPeer(role, sends=case.get("sends") or ())
     ref = pkt.RPeer(other)
     prev = case.get("prev") or []
-    epochs = [(e["keys"], e["lengths"]) for e in prev] + [(case["keys"], case["lengths"])]
+    long_lived = isinstance(case["lengths"], dict)
+    epochs = [(e["keys"], _lengths(e["lengths"])) for e in prev] + [(case["keys"], _lengths(case["lengths"]))]
     if any(k is not None and k[dname][2] == "zlib@openssh.com" for k, _ in epochs):
         sender.auth()
         ref.auth()
@@ -129,12 +155,16 @@ def execute(ctx, case):
         if bad:
             # report the shortest prefix that still shows it (deterministic given the case)
             short = dict(case, prev=prev[:ei], keys=keys, seed=seed + 1000 * (len(epochs) - 1 - ei))
-            short["lengths"] = lengths[: i + 1] if compressed else [lengths[i]]
+            # (state that spans packets - compression, a long-lived sender, a send script - needs the prefix)
+            short["lengths"] = lengths[: i + 1] if (compressed or long_lived or case.get("sends")) else [lengths[i]]
             break
+    send_stats = dict(sender.sock.send_stats)
     sender.close()
     keys, lengths = epochs[-1]
     if case.get("enumerated"):
         nontrivial = keys is not None and len(residues) == bs
+    elif long_lived:
+        nontrivial = keys is not None and len(lengths) >= 1000
     else:
         nontrivial = keys is not None and any(L > 4 * bs + 8 for L in lengths)
     classes = ["api:" + api, "framing:" + fc, "role:" + role, "comp:" + comp]
@@ -143,6 +173,10 @@ def execute(ctx, case):
     if keys is not None:
         classes += pkt.asymmetry_classes(keys)
         classes.append("sender-keyed-in-both-directions")
+    classes += pktx.send_classes(send_stats)
+    if long_lived:
+        classes.append("long-lived-sender")
+        classes.append("long-lived-sender:%s" % pkt.suite_style(cipher, mac))
     if prev:
         classes.append("after-rekey:%d" % len(prev))
         if any(pkt.suite_style(*a[dname][:2]) != pkt.suite_style(*b[dname][:2]) for (a, _), (b, _) in zip(epochs, epochs[1:])):
@@ -290,6 +324,7 @@ def run(ctx):
     ctx.assume("lengths near 2^32 are not materialised; the formula is exercised for every residue and concretely up to 70000 bytes")
     # -- generated lengths, independent suites per direction, 0-2 earlier key exchanges
     S = pkt.strategies()
+    X = pktx.strategies()
     lens = st.lists(st.one_of(st.integers(1, 200), st.integers(1, 70000), st.integers(32700, 32800), st.integers(65500, 70000)), min_size=1, max_size=6)
     few = st.lists(st.integers(1, 80), max_size=3)
     earlier = st.lists(st.fixed_dictionaries({"keys": S.keys(), "lengths": few}), max_size=2)
@@ -308,12 +343,44 @@ def run(ctx):
                 "api": st.sampled_from(["send", "send", "build"]),
                 "lengths": lens,
                 "seed": st.integers(0, 1000),
+                "sends": X.sends,
             }
         )
         .filter(distinct_h)
         .map(pkt.norm_case)
     )
     ctx.explore(strat, lambda case: execute(ctx, case), ctx.scale(400, 10000))
+
+    # -- long-lived senders: one keyed Packetizer, many packets, every cipher x MAC style
+    if ctx.quick:
+        styles = {"plain": ["hmac-sha2-256", "hmac-sha2-512", "hmac-sha1", "hmac-md5"], "trunc": ["hmac-sha1-96", "hmac-md5-96"], "etm": ["hmac-sha2-256-etm@openssh.com", "hmac-sha2-512-etm@openssh.com"]}
+        lwork = []
+        for ci, c in enumerate(pkt.CIPHERS):
+            for si, (style, macs) in enumerate(sorted(styles.items())):
+                if R.CIPHERS[c][0] == "gcm" and si:
+                    continue  # the MAC name is unused under GCM
+                lwork.append((c, macs[(ctx.seed + ci) % len(macs)]))
+        n_long = 2500
+    else:
+        lwork = pairs
+        n_long = 20000
+    for idx, (c, m) in enumerate(lwork):
+        if idx % ctx.nworkers != ctx.worker or ctx.unknown or ctx.out_of_time():
+            continue
+        z = ("none", "none", "none", "zlib", "none", "zlib@openssh.com")[idx % 6]
+        mine = st.just([c, m, z])
+        role = ("client", "server")[idx % 2]
+        lstrat = st.fixed_dictionaries(
+            {
+                "keys": S.keys(c2s=mine) if role == "client" else S.keys(s2c=mine),
+                "role": st.just(role),
+                "api": st.just("send"),
+                "lengths": st.fixed_dictionaries({"n": st.just(n_long), "max": st.integers(8, 64), "seed": st.integers(0, 1 << 20)}),
+                "seed": st.integers(0, 1000),
+                "sends": st.one_of(st.just([]), X.sends),
+            }
+        ).map(pkt.norm_case)
+        ctx.explore(lstrat, lambda case: execute(ctx, case), ctx.scale(1, 3), shrink=False, seed_offset=300 + idx)
 
 
 def replay(ctx, case):
